@@ -11,6 +11,10 @@ mod sas_lang;
 mod tests;
 mod text;
 pub(crate) mod token_type;
+// verification hook (no effect unless compiled by the Kani verifier): harnesses on the leaf functions
+#[cfg(kani)]
+#[path = "/verif/hooks/lexer_kani.rs"]
+mod verif_kani;
 
 use bit_vec::BitVec;
 use buffer::{
